@@ -421,6 +421,14 @@ func streamZones(c *ctx) {
 		for _, g := range [][6]int{{2021, 3, 14, 2, 30, 0}, {2021, 10, 3, 2, 15, 45}, {2021, 3, 28, 2, 30, 0}, {2024, 3, 10, 2, 0, 0}} {
 			emitDT(g[0], g[1], g[2], g[3], g[4], g[5], "dt/gap-of-another-zone")
 		}
+		// times of day with zero hours and seconds (what a decoder that looks at every other byte would take for zero)
+		for _, g := range [][6]int{{2024, 6, 15, 0, 1, 0}, {2024, 6, 15, 0, 59, 0}, {2024, 6, 15, 0, 30, 0}, {2024, 6, 15, 10, 0, 0}, {2024, 6, 15, 0, 0, 30}} {
+			emitDT(g[0], g[1], g[2], g[3], g[4], g[5], "dt/zero-hours-and-seconds")
+		}
+		// dates beyond what a count of nanoseconds since 1970 can hold (before 1677-09-21, after 2262-04-11)
+		for _, g := range [][3]int{{2262, 4, 13}, {2300, 1, 1}, {2999, 12, 31}, {9999, 12, 31}, {1677, 9, 20}, {1500, 1, 1}, {1, 1, 2}} {
+			emitDate(g[0], g[1], g[2], "date/far-from-1970")
+		}
 		// --- the zero date-time and the zero date survive a round trip in this zone
 		out := guard(func() string {
 			var z types.DateTime
